@@ -156,7 +156,11 @@ func (x *b44it) mutable() bool { return x.k != [32]byte{} }
 
 // a fresh *bep44.Item every time: the store keeps the pointer it is given
 func (x *b44it) item() *bep44.Item {
-	return &bep44.Item{V: x.v, K: x.k, Salt: append([]byte(nil), x.salt...), Sig: x.sig, Cas: x.cas, Seq: x.seq}
+	salt := append([]byte(nil), x.salt...)
+	if x.salt != nil && salt == nil {
+		salt = []byte{} // present but empty (what a decoder yields for `4:salt0:`) is not the same Go value as absent
+	}
+	return &bep44.Item{V: x.v, K: x.k, Salt: salt, Sig: x.sig, Cas: x.cas, Seq: x.seq}
 }
 
 func (x *b44it) args() string {
@@ -321,6 +325,10 @@ func (e *b44env) variants(v interface{}, salt []byte, seq int64) []*b44it {
 	fl[e.r.intn(64)] ^= 1 << uint(e.r.intn(8))
 	alt("sig-bit-flipped", fl)
 	alt("sig-zero", make([]byte, 64))
+	if len(salt) == 0 {
+		// signed over a buffer that spells the empty salt out (`4:salt0:`): not the BEP 44 buffer, must not verify
+		alt("sig-over-spelled-out-empty-salt", ed25519.Sign(e.priv[0], append([]byte("4:salt0:"), b44refBuf(nil, seq, base.bv)...)))
+	}
 	imm := e.mk(v, -1, salt, seq, 0)
 	copy(imm.sig[:], e.r.bytes(64))
 	out = append(out, imm)
@@ -330,7 +338,7 @@ func (e *b44env) variants(v interface{}, salt []byte, seq int64) []*b44it {
 // ---------------------------------------------------------------- (a) pure functions
 
 func (e *b44env) pure() {
-	salts := [][]byte{nil, []byte("s"), e.r.bytes(63), e.r.bytes(64), e.r.bytes(65), e.r.bytes(200)}
+	salts := [][]byte{nil, {}, []byte("s"), e.r.bytes(63), e.r.bytes(64), e.r.bytes(65), e.r.bytes(200)}
 	seqs := []int64{0, 1, -1, math.MinInt64, math.MaxInt64, 1234567890123}
 	// bufferToSign against the model (and, through the edtable, against the reference encoder)
 	for _, salt := range salts {
@@ -1040,7 +1048,7 @@ func (e *b44env) sequential() {
 			key  int
 			salt []byte
 		}
-		slots := []slot{{0, nil}, {0, []byte("s")}, {1, []byte("s")}, {-1, nil}}
+		slots := []slot{{0, nil}, {0, []byte("s")}, {1, []byte("s")}, {-1, nil}, {0, []byte{}}}
 		var ops []func(c *b44case)
 		var items []*b44it
 		var targets [][20]byte
